@@ -20,12 +20,15 @@ def c01 (j : Json) : Except String Json := do
     let covered := match p.ctes with
       | [c] => p.fusable c && decide (p.fuse c = Spec.flat m q)
       | _ => false
+    let coveredRaw := match p.ctes with
+      | [c] => p.fusableRaw c && decide (p.fuseRaw c = Spec.flatRaw m q)
+      | _ => false
     pure (Json.mkObj [
       ("outcome", "ok"), ("sql", p.toSql), ("columns", jstrs p.columns),
       ("rows", rowsJson p.columns out),
       ("body", rowsJson p.columns (p.body db)),
       ("spec_body", rowsJson cols specBody),
       ("spec_columns", jstrs cols),
-      ("covered", covered)])
+      ("covered", covered), ("covered_raw", coveredRaw)])
 
 end SideVerif.Drive
